@@ -46,17 +46,60 @@ var lockMethods = map[string]bool{"Lock": true, "Unlock": true, "RLock": true, "
 
 type DEvent struct {
 	Op  string // RLock | RUnlock | Lock | Unlock
-	Set int    // 0 = the set with the lower address, 1 = the other
+	Set int    // 0 = the set the library locks first of the two (OrderedPair), 1 = the other
+}
+
+// OrderedPair returns two fresh sets (1,2) and (2,3) named by the order in which the library itself
+// acquires their locks when one operation needs both: lo is the set a two-set operation locks first
+// (asked of the running code through the hook, with x.Equal(y) and y.Equal(x)); if that does not
+// single out one of them — the two calls disagree, or lock only one set — lo is the set with the
+// lower address. Whatever global order the library uses (addresses, creation numbers, …), lock 0 is
+// then "the one that comes first in it", so the recorded sequences do not depend on where the
+// allocator happened to put the two sets.
+func OrderedPair() (lo, hi mapset.Set) {
+	x, y := mapset.NewSet(1, 2), mapset.NewSet(2, 3)
+	first := func(recv, arg mapset.Set) mapset.Set {
+		var mu sync.Mutex
+		var got mapset.Set
+		mapset.VerifLockHook = func(set any, op string, phase int) {
+			if phase != 1 || (op != "RLock" && op != "Lock") {
+				return
+			}
+			mu.Lock()
+			defer mu.Unlock()
+			if got != nil {
+				return
+			}
+			switch reflect.ValueOf(set).Pointer() {
+			case reflect.ValueOf(x).Pointer():
+				got = x
+			case reflect.ValueOf(y).Pointer():
+				got = y
+			}
+		}
+		func() {
+			defer func() { recover() }()
+			recv.Equal(arg)
+		}()
+		mapset.VerifLockHook = nil
+		return got
+	}
+	f1, f2 := first(x, y), first(y, x)
+	switch {
+	case f1 != nil && f1 == f2 && f1 == x:
+		return x, y
+	case f1 != nil && f1 == f2 && f1 == y:
+		return y, x
+	}
+	if reflect.ValueOf(x).Pointer() > reflect.ValueOf(y).Pointer() {
+		return y, x
+	}
+	return x, y
 }
 
 func RecordTrace(method string, pattern string) ([]DEvent, error) {
-	x, y := mapset.NewSet(1, 2), mapset.NewSet(2, 3)
-	// lock ids by address order, as the repaired code orders its acquisitions
-	px, py := reflect.ValueOf(x).Pointer(), reflect.ValueOf(y).Pointer()
-	lo, hi := x, y
-	if px > py {
-		lo, hi = y, x
-	}
+	// lock ids by the library's own acquisition order (address order in the repaired code)
+	lo, hi := OrderedPair()
 	idOf := func(s any) int {
 		switch reflect.ValueOf(s).Pointer() {
 		case reflect.ValueOf(lo).Pointer():
